@@ -325,13 +325,37 @@ ref_t reference(const std::vector<double>& column)
 }
 
 // comparison with a tolerance band: beyond 10x the tolerance -> violation, inside (tol, 10 tol] -> borderline
+// (signature and message are only built on failure: JUDGE evaluates them lazily)
 struct judge_t
 {
-    ctx_t&                   ctx;
-    bool                     borderline{false};
-    std::optional<verdict_t> fail;
+    ctx_t&                                      ctx;
+    bool                                        borderline{false};
+    std::optional<verdict_t>                    fail;
+    std::vector<std::pair<const char*, double>> maxima; // keyed by string literal
 
-    bool operator()(const char* key, ld err, ld tol, const std::string& sig, const std::string& msg)
+    void note(const char* key, double ratio)
+    {
+        for (auto& kv : maxima)
+        {
+            if (kv.first == key)
+            {
+                kv.second = std::max(kv.second, ratio);
+                return;
+            }
+        }
+        maxima.emplace_back(key, ratio);
+    }
+
+    void flush()
+    {
+        for (const auto& kv : maxima)
+        {
+            ctx.maximum(kv.first, kv.second);
+        }
+    }
+
+    template <class tsig, class tmsg>
+    bool test(const char* key, ld err, ld tol, const tsig& sig, const tmsg& msg)
     {
         if (!(tol > 0))
         {
@@ -339,13 +363,13 @@ struct judge_t
         }
         if (std::isfinite(static_cast<double>(err)))
         {
-            ctx.maximum(key, static_cast<double>(err / tol));
+            note(key, static_cast<double>(err / tol));
         }
         if (!(err <= 10 * tol)) // also catches NaN
         {
             if (!fail)
             {
-                fail = verdict_t::violation(sig, cat(msg, " err=", static_cast<double>(err), " tol=", static_cast<double>(tol)));
+                fail = verdict_t::violation(sig(), cat(msg(), " err=", static_cast<double>(err), " tol=", static_cast<double>(tol)));
             }
             return false;
         }
@@ -356,6 +380,8 @@ struct judge_t
         return true;
     }
 };
+
+#define JUDGE(key, err, tol, sig, msg) judge.test(key, err, tol, [&] { return std::string(sig); }, [&] { return std::string(msg); })
 
 const char* mode_name(int mode)
 {
@@ -446,13 +472,13 @@ void check_statistics(const side_t& side, const scalar_stats_t& st, judge_t& jud
                                               cat("column ", j, ": [", st.m_min(j), ",", st.m_max(j), "] expected [", static_cast<double>(r.min), ",", static_cast<double>(r.max), "]"));
             return;
         }
-        judge("stats/mean", std::fabs(st.m_mean(j) - r.mean), 1e3 * eps * r.meanabs, cat("C14/stats/", side.name, "/mean"),
+        JUDGE("stats/mean", std::fabs(st.m_mean(j) - r.mean), 1e3 * eps * r.meanabs, cat("C14/stats/", side.name, "/mean"),
               cat("column ", j, ": mean ", st.m_mean(j), " expected ", static_cast<double>(r.mean)));
         if (r.N >= 2)
         {
             // one-pass variance: error <= 3 N eps sum(x^2) / (N-1), N <= 300
             const ld tol_var = 1e3 * eps * r.sumsq / static_cast<ld>(r.N - 1);
-            judge("stats/variance", std::fabs(static_cast<ld>(st.m_stdev(j)) * st.m_stdev(j) - r.var), tol_var + 8 * eps * r.var,
+            JUDGE("stats/variance", std::fabs(static_cast<ld>(st.m_stdev(j)) * st.m_stdev(j) - r.var), tol_var + 8 * eps * r.var,
                   cat("C14/stats/", side.name, "/deviation"), cat("column ", j, ": stdev ", st.m_stdev(j), " expected ", static_cast<double>(std::sqrt(r.var))));
         }
     }
@@ -516,7 +542,7 @@ void check_mode(const side_t& side, const scalar_stats_t& st, int mode, const st
             }
             // (i) scaling followed by up-scaling returns the original finite values
             const ld tol = 1e3 * eps * (std::fabs(static_cast<ld>(x)) + std::fabs(static_cast<ld>(st.m_mean(j))) + std::fabs(static_cast<ld>(st.m_min(j))));
-            if (!judge("roundtrip", std::fabs(static_cast<ld>(u) - x), tol, cat(where, "/roundtrip"),
+            if (!JUDGE("roundtrip", std::fabs(static_cast<ld>(u) - x), tol, cat(where, "/roundtrip"),
                        cat("column ", j, " sample ", i, ": ", x, " -> ", z, " -> ", u, " (N=", r.N, " mean=", st.m_mean(j), " min=", st.m_min(j), ")")))
             {
                 return;
@@ -548,12 +574,12 @@ void check_mode(const side_t& side, const scalar_stats_t& st, int mode, const st
 
         if (mode == 2)
         {
-            if (!judge("minmax/inside", std::max(-zmin, zmax - 1), 1e-12L, cat(where, "/outside-unit-interval"),
+            if (!JUDGE("minmax/inside", std::max(-zmin, zmax - 1), 1e-12L, cat(where, "/outside-unit-interval"),
                        cat(describe(), " scaled into [", static_cast<double>(zmin), ",", static_cast<double>(zmax), "]")))
             {
                 return;
             }
-            if (regular && !judge("minmax/extremes", std::max(std::fabs(zmin), std::fabs(zmax - 1)), 1e-12L, cat(where, "/extremes"),
+            if (regular && !JUDGE("minmax/extremes", std::max(std::fabs(zmin), std::fabs(zmax - 1)), 1e-12L, cat(where, "/extremes"),
                                   cat(describe(), " scaled into [", static_cast<double>(zmin), ",", static_cast<double>(zmax), "] instead of [0,1]")))
             {
                 return;
@@ -564,12 +590,12 @@ void check_mode(const side_t& side, const scalar_stats_t& st, int mode, const st
             // zero mean: |mean z| <= N eps mean|x| d + rounding of the scaled values
             const ld d   = mode == 1 ? st.m_div_range(j) : st.m_div_stdev(j);
             const ld tol = 1e3 * eps * ((r.meanabs + std::fabs(r.mean)) * std::fabs(d) + zabs / static_cast<ld>(zn));
-            if (!judge("centre", std::fabs(zmean), tol, cat(where, "/centre"), cat(describe(), " scaled mean ", static_cast<double>(zmean))))
+            if (!JUDGE("centre", std::fabs(zmean), tol, cat(where, "/centre"), cat(describe(), " scaled mean ", static_cast<double>(zmean))))
             {
                 return;
             }
             if (mode == 1 && regular &&
-                !judge("mean/range", std::fabs((zmax - zmin) - 1), 1e-12L, cat(where, "/range"), cat(describe(), " scaled range ", static_cast<double>(zmax - zmin))))
+                !JUDGE("mean/range", std::fabs((zmax - zmin) - 1), 1e-12L, cat(where, "/range"), cat(describe(), " scaled range ", static_cast<double>(zmax - zmin))))
             {
                 return;
             }
@@ -590,7 +616,7 @@ void check_mode(const side_t& side, const scalar_stats_t& st, int mode, const st
                         }
                     }
                     const ld zvar = ss / static_cast<ld>(zn - 1);
-                    if (!judge("standard/deviation", std::fabs(zvar - 1), 2 * kappa + 1e-9L, cat(where, "/deviation"),
+                    if (!JUDGE("standard/deviation", std::fabs(zvar - 1), 2 * kappa + 1e-9L, cat(where, "/deviation"),
                                cat(describe(), " scaled sample variance ", static_cast<double>(zvar), " (library stdev ", st.m_stdev(j), ", reference ",
                                    static_cast<double>(std::sqrt(r.var)), ")")))
                     {
@@ -725,7 +751,7 @@ verdict_t check_impl(const case_t& c, ctx_t& ctx)
         }
     }
 
-    judge_t      judge{ctx};
+    judge_t      judge{ctx, false, std::nullopt, {}};
     degeneracy_t deg;
     classify(inputs, deg);
     classify(outputs, deg);
@@ -837,7 +863,7 @@ verdict_t check_impl(const case_t& c, ctx_t& ctx)
                             judge.fail = verdict_t::violation(cat(where, "/non-finite"), cat("output ", k, ": converted model ", static_cast<double>(acc), ", up-scaled prediction ", y[static_cast<size_t>(k)]));
                             break;
                         }
-                        judge("affine", std::fabs(acc - y[static_cast<size_t>(k)]), 1e3 * eps * terms, cat(where, "/mismatch"),
+                        JUDGE("affine", std::fabs(acc - y[static_cast<size_t>(k)]), 1e3 * eps * terms, cat(where, "/mismatch"),
                               cat("output ", k, ": converted model on raw inputs ", static_cast<double>(acc), ", up-scaled prediction on scaled inputs ", y[static_cast<size_t>(k)],
                                   ", summed magnitudes ", static_cast<double>(terms)));
                     }
@@ -882,6 +908,7 @@ verdict_t check_impl(const case_t& c, ctx_t& ctx)
     ctx.label_if(c.batch < static_cast<int>(c.samples.size()), "several-batches");
     ctx.nontrivial = (deg.constant || deg.single || deg.all_missing) && deg.regular;
 
+    judge.flush();
     if (judge.fail)
     {
         return *judge.fail;
